@@ -276,6 +276,7 @@ class StreamIterSel(StreamGet):
     """LevelDataStream.iter (the on-demand iterator): the same selection semantics as __getitem__, the results handed back
     through the pool's ordered iterator - the selected boxes in the requested order."""
     qual = STR + "iter"
+    inline = (PC + "pool_imap",)        # the generator that owns the pool: its real body, run as part of iter
 
     def __init__(self, form):
         StreamGet.__init__(self, form)
@@ -284,15 +285,14 @@ class StreamIterSel(StreamGet):
     def post(self, ex, inp, out):
         if out.kind == "ret" and isinstance(out.value, SeqIter):
             ex.ctx.oblige("post.iterator-starts-at-the-first-selected-box", veq(ex.ctx, out.value.pos, 0), "P")
-            # pool contract (CPython, observed): an imap over an EMPTY task list whose pool is referenced by nothing but the
-            # returned iterator never completes (the pool is finalised from its own task-handler thread), so next() blocks
-            # for ever instead of raising StopIteration: an iterator that is to yield nothing must not be built that way
+            # pool contract (CPython 3.12, observed): a pool that nothing but its imap iterator references is finalised from one
+            # of its own handler threads - always for an empty task list, and whenever every result is back before the task
+            # handler reports the length (seen 2 in 1000 runs for two small boxes): next() then blocks for ever.  An iterator
+            # handed out must come with a pool that something else keeps referenced (a with-block in a generator frame).
             pool = getattr(out.value, "pool", None)
             if self.prop == "C15" and pool is not None and getattr(pool, "created_here", False):
-                seq = out.value.seq
-                ln = seq.length if isinstance(seq, SymSeq) else len(seq)
-                ex.ctx.oblige("post.empty-selection-terminates", to_z3(ln) > 0, "P",
-                              note="imap over an empty task list on a pool only the iterator references: next() never returns")
+                ex.ctx.oblige("post.pool-outlives-the-iterator", bool(getattr(pool, "held", False)), "P",
+                              note="imap iterator returned while its pool is a dead local: next() can block for ever")
             out.value = out.value.seq        # what the iterator yields, in order
         StreamGet.post(self, ex, inp, out)
 
